@@ -281,7 +281,7 @@ func opLane(w *World, op *Op) {
 	case "memo_blank": // a memo that is present but consists of white space only
 		bz = WrapEth(ethMsg, ethTx.Gas(), fullFee, &WrapOpts{Memo: pick(newRng(uint64(op.Ref)+11), " ", "\n", "\t  ", strings.Repeat(" ", 300))})
 	case "timeout":
-		bz = WrapEth(ethMsg, ethTx.Gas(), fullFee, &WrapOpts{TimeoutHeight: uint64(w.C.Height + 100)})
+		bz = WrapEth(ethMsg, ethTx.Gas(), fullFee, &WrapOpts{TimeoutHeight: pick(newRng(uint64(op.Ref)+5), uint64(w.C.Height+100), uint64(w.C.Height+100), 1, 1<<63, 1<<63+7, ^uint64(0))})
 	case "fee_payer":
 		bz = WrapEth(ethMsg, ethTx.Gas(), fullFee, &WrapOpts{FeePayer: other.Acc()})
 	case "fee_granter":
